@@ -2,6 +2,6 @@
 # Run once after a fresh restore, offline: regenerate Gen/*.lean from /repo and build every Lean target.
 set -e
 cd "$(dirname "$0")"
-PYTHONPATH=/repo /venv/bin/python translator/extract.py all /repo
+PYTHONPATH=/repo /venv/bin/python -m translator.extract all /repo
 cd lean
 lake build JediModel
